@@ -59,6 +59,8 @@ module Pos :
 
   val mul : positive -> positive -> positive
 
+  val size : positive -> positive
+
   val compare_cont : comparison -> positive -> positive -> comparison
 
   val compare : positive -> positive -> comparison
@@ -106,7 +108,11 @@ module Z :
 
   val div_eucl : z -> z -> z * z
 
+  val div : z -> z -> z
+
   val modulo : z -> z -> z
+
+  val log2 : z -> z
  end
 
 val nth : nat -> 'a1 list -> 'a1 -> 'a1
@@ -169,6 +175,10 @@ val pn_loop : z -> z list -> (z * z list) res
 val parse_number : z list -> (z * z list) option res
 
 val expect_number : z list -> (z * z list) res
+
+val dec_aux : nat -> z -> z list -> z list
+
+val decimal : z -> z list
 
 val align_up : z -> z -> z
 
